@@ -25,17 +25,30 @@ pub fn extract_request_cookies<'request>(
         let header = header
             .to_str()
             .map_err(ExtractRequestCookiesError::InvalidHeaderValue)?;
-        cookies.extend_from_header(header, processor).map_err(|e| {
-            use biscotti::errors::ParseError::*;
-            match e {
-                MissingPair(e) => ExtractRequestCookiesError::MissingPair(e),
-                EmptyName(e) => ExtractRequestCookiesError::EmptyName(e),
-                Crypto(e) => ExtractRequestCookiesError::Crypto(e),
-                Decoding(e) => ExtractRequestCookiesError::Decoding(e),
-                _ => ExtractRequestCookiesError::Unexpected(UnexpectedError::new(e)),
+        // Parse one `name=value` pair at a time: parsing stops at the first pair that is invalid,
+        // and we don't want to lose the valid cookies that follow it on the same header line.
+        // (`;` can't appear inside a cookie value, RFC 6265 §4.1.1.)
+        let mut first_error = None;
+        for pair in header.split(';') {
+            if pair.trim().is_empty() {
+                continue;
             }
-        })?;
-        Ok(())
+            if let Err(e) = cookies.extend_from_header(pair, processor) {
+                use biscotti::errors::ParseError::*;
+                let e = match e {
+                    MissingPair(e) => ExtractRequestCookiesError::MissingPair(e),
+                    EmptyName(e) => ExtractRequestCookiesError::EmptyName(e),
+                    Crypto(e) => ExtractRequestCookiesError::Crypto(e),
+                    Decoding(e) => ExtractRequestCookiesError::Decoding(e),
+                    _ => ExtractRequestCookiesError::Unexpected(UnexpectedError::new(e)),
+                };
+                first_error.get_or_insert(e);
+            }
+        }
+        match first_error {
+            Some(e) => Err(e),
+            None => Ok(()),
+        }
     }
 
     let mut cookies = RequestCookies::new();
